@@ -237,6 +237,35 @@ func (o *caseOracle) afterReq(r Req, res ReqResult, linked int, post snapshot, i
 	o.common(post)
 }
 
+// afterBatch checks a pipelined batch: the responses are a prefix of the requests, in order, each
+// with its request's CSeq; a shorter answer is only acceptable when the server closed the connection.
+func (o *caseOracle) afterBatch(b BatchResult, post snapshot, in *instance) {
+	defer func() { o.prev = post }()
+	if in.hang != "" {
+		o.violate("no sequence hangs the server", "hang", in.hang)
+		in.hang = ""
+	}
+	if in.extraResp != "" {
+		o.violate("exactly one response per request", "extra-response", in.extraResp)
+		in.extraResp = ""
+	}
+	if b.Lines[0] == "noconn" && b.Answered == 0 && !b.Closed {
+		return // the connection was not open
+	}
+	o.nReq += len(b.Sent)
+	o.nResp += b.Answered
+	o.dist["pipelined-batch"]++
+	o.dist[fmt.Sprintf("pipelined-batch:answered-%d-of-%d", b.Answered, len(b.Sent))]++
+	if b.Detail != "" {
+		o.violate("responses come in request order and echo the CSeq", "pipeline-order", b.Detail)
+	}
+	if b.Answered < len(b.Sent) && !b.Closed {
+		o.violate("exactly one response per request", "no-response",
+			fmt.Sprintf("%d pipelined requests, %d responses, connection still open", len(b.Sent), b.Answered))
+	}
+	o.common(post)
+}
+
 // afterClose checks a client-side close of connection c.
 func (o *caseOracle) afterClose(c int, post snapshot, in *instance) {
 	pre := o.prev
